@@ -208,7 +208,11 @@ Pre(st00, e, alt) ==
      ELSE IF Overdue(st2, t) # {}
           THEN LET o == CHOOSE x \in Overdue(st2, t) : TRUE IN
                IF Bad(TRUE, DeadlineClause(o)) THEN Fail(st2, DeadlineClause(o))
-               ELSE [st2 EXCEPT !.obl = {x \in @ : ~(x.st = "open" /\ x.hi < t)}]
+               \* the timing clauses belong to C12 / C11; the answer itself is still owed (C03): it is "late" for two more seconds
+               ELSE [st2 EXCEPT !.obl = {IF x.st = "open" /\ x.hi < t THEN [x EXCEPT !.st = "late"] ELSE x : x \in @}]
+     ELSE IF \E x \in st2.obl : x.st = "late" /\ x.hi + 2000 < t
+          THEN IF Bad(TRUE, "C03_MissingAnswer") THEN Fail(st2, "C03_MissingAnswer")
+               ELSE [st2 EXCEPT !.obl = {x \in @ : ~(x.st = "late" /\ x.hi + 2000 < t)}]
      ELSE [st2 EXCEPT !.obl = {x \in @ : x.hi + 2000 >= t /\ x.st # "used"},
                       !.slots = {x \in @ : x.t + 2000 >= t}]
 
@@ -300,7 +304,7 @@ OnApi(st, e) ==
                      !.gone = {g \in @ : g[1] \notin SvcRecs(v)},
                      \* answers owed for records of the replaced version are no longer owed: records that are gone, and records
                      \* whose configured TTL changed (the queued copy is stale; the announcement at this instant carries the new one)
-                     !.obl = {[o EXCEPT !.st = IF o.st = "open" /\ (o.r \notin Owned(st1) \/ TtlsOf(st1, o.r) # TtlsOf(st, o.r))
+                     !.obl = {[o EXCEPT !.st = IF o.st \in {"open", "late"} /\ (o.r \notin Owned(st1) \/ TtlsOf(st1, o.r) # TtlsOf(st, o.r))
                                               THEN "cov" ELSE o.st] : o \in @}]
     [] e.op = "unreg" ->
          LET v == st.reg[e.sid]
@@ -308,7 +312,15 @@ OnApi(st, e) ==
              gs == GoodbyeSet(st1, v)
          IN [st1 EXCEPT !.slots = @ \cup {[t |-> e.t + d, kind |-> "bye", set |-> gs, used |-> FALSE] : d \in {0, 125, 250}},
                         !.gone = @ \cup {<<p[1], e.t + 250>> : p \in gs},
-                        !.obl = {[o EXCEPT !.st = IF o.st = "open" /\ o.r \notin Owned(st1) THEN "cov" ELSE o.st] : o \in @}]
+                        !.obl = {[o EXCEPT !.st = IF o.st \in {"open", "late"} /\ o.r \notin Owned(st1) THEN "cov" ELSE o.st] : o \in @}]
+    [] e.op = "unreg_all" ->
+         \* async_unregister_all_services: one goodbye datagram for all services, three times; the instance stays open
+         LET all == UNION {Broadcast(st.reg[k], TRUE) : k \in Sids(st)}
+             st1 == [st EXCEPT !.reg = [k \in 0..7 |-> NoSvc]]
+         IN IF all = {} THEN st1
+            ELSE [st1 EXCEPT !.slots = @ \cup {[t |-> e.t + d, kind |-> "bye", set |-> all, used |-> FALSE] : d \in {0, 125, 250}},
+                             !.gone = @ \cup {<<p[1], e.t + 250>> : p \in all},
+                             !.obl = {[o EXCEPT !.st = IF o.st \in {"open", "late"} THEN "cov" ELSE o.st] : o \in @}]
     [] e.op = "close" ->
          LET all == UNION {Broadcast(st.reg[k], TRUE) : k \in Sids(st)}
              \* whatever was in progress is abandoned: registration, announcements, held truncated queries
@@ -317,7 +329,7 @@ OnApi(st, e) ==
          IN IF all = {} THEN [st1 EXCEPT !.obl = {}]
             ELSE [st1 EXCEPT !.slots = @ \cup {[t |-> e.t + d, kind |-> "bye", set |-> all, used |-> FALSE] : d \in {0, 125, 250}},
                              !.gone = @ \cup {<<p[1], e.t + 250>> : p \in all},
-                             !.obl = {[o EXCEPT !.st = IF o.st = "open" THEN "cov" ELSE o.st] : o \in @}]
+                             !.obl = {[o EXCEPT !.st = IF o.st \in {"open", "late"} THEN "cov" ELSE o.st] : o \in @}]
     [] OTHER -> st
 
 (* ------------------------------------------------------------------ receiving *)
@@ -424,6 +436,7 @@ OnMulticastReply(st, e) ==
      ELSE [st EXCEPT !.obl = {IF o.r \in an /\ o.st # "used" /\ o.qt <= t /\ OCand(st, o.r, t) # {}
                               THEN (IF o = OwnObl(st, o.r, t) THEN [o EXCEPT !.st = "used"]
                                     ELSE [o EXCEPT !.st = "cov"])
+                              ELSE IF o.r \in an /\ o.st = "late" THEN [o EXCEPT !.st = "cov"]       \* answered after all
                               ELSE o : o \in st.obl}]
 
 OnSend(st, e) ==
@@ -440,7 +453,9 @@ OnSend(st, e) ==
   ELSE IF Bad(FormatBad(e), "C11_MulticastFormat") THEN Fail(st, "C11_MulticastFormat")
   ELSE LET slot == {x \in st.slots : x.t = e.t /\ ~x.used /\ x.set = Pairs(e.an) /\ e.ar = <<>>} IN
        IF slot # {}
-       THEN LET x == CHOOSE y \in slot : TRUE IN [st EXCEPT !.slots = (@ \ {x}) \cup {[x EXCEPT !.used = TRUE]}]
+       THEN LET x == CHOOSE y \in slot : TRUE IN
+            [st EXCEPT !.slots = (@ \ {x}) \cup {[x EXCEPT !.used = TRUE]},
+                       !.obl = {IF o.st = "late" /\ o.r \in RidsOf(e.an) THEN [o EXCEPT !.st = "cov"] ELSE o : o \in @}]
        ELSE OnMulticastReply(st, e)
 
 (* an announcement / goodbye slot whose instant has passed without its datagram *)
